@@ -405,8 +405,9 @@ def _check_finite_diff(desc, shape, dtype, dxs, region, K, notes):
 # operators
 
 def _opmatrix(op, sig):
-    """Real-ified matrix and offset ``op(0)`` of an affine operator (own loop:
-    ``flat.opmatrix`` shadows the builtin ``range``)."""
+    """Real-ified matrix and offset ``op(0)`` of an affine operator (like
+    ``flat.opmatrix``; additionally validates range membership and turns a
+    rejection of an admissible input into a violation)."""
     dom, ran = op.domain, op.range
     n, m = flat.rdim(dom), flat.rdim(ran)
     try:
